@@ -20,7 +20,9 @@ RULE = (
     "harness's yield points (every mutating audit event, a mid-copy event, every os.stat/lstat under the "
     "scratch root); exactly one writer runs at a time, so the run is a function of the schedule. A second "
     "arm forks the writers as separate processes that sleep drawn micro-delays at the same yield points. "
-    "In a third of the cases the store starts with unprotected truncated leftovers of an interrupted add under "
+    "About three thread cases in ten additionally yield at every Python call into drawn dvc_data modules (state, cache, "
+    "db, build/hash, or all), so interleavings between statements that involve no filesystem operation are "
+    "reached. In a third of the cases the store starts with unprotected truncated leftovers of an interrupted add under "
     "some of the writers' object names; in a quarter all contents hash into one fan-out directory. "
     "Oracle (schedule-independent): no writer raised / reported failed ids; each writer's directory object "
     "is present with bytes == the reference listing of its manifest and every listed file present with "
@@ -29,8 +31,9 @@ RULE = (
     ">=2 processes sharing content; distinct = SHA-1 of the case JSON."
 )
 ASSUMPTIONS = [
-    "thread interleavings are explored only at the harness's yield points (filesystem-operation boundaries); "
-    "races between two bytecodes or inside sqlite are not forced",
+    "thread interleavings are explored only at the harness's yield points (filesystem-operation boundaries and, "
+    "in the call-granularity arm, Python calls into dvc_data); races between two bytecodes inside one function "
+    "or inside sqlite are not forced",
     "the multi-process arm is perturbed, not controlled: its verdict comes from the post-run audit only",
     "diskcache/sqlite are trusted to serialise access to the state database",
 ]
@@ -68,11 +71,17 @@ def cases(draw, big_ok=False):
         "work": draw(st.sampled_from(["stage", "stage", "isave", "xfer"])),
         "hardlink": draw(st.sampled_from([False, False, True])),
         # (thread, run length) pairs flattened: long runs park the other writers across several operations
-        "schedule": [t for t, k in draw(st.lists(st.tuples(st.integers(0, 3), st.sampled_from([1, 1, 1, 2, 3, 5, 8])),
-                                                 min_size=0, max_size=80)) for _ in range(k)],
+        "schedule": [t for t, k in draw(st.lists(st.tuples(st.integers(0, 3), st.sampled_from([1, 1, 1, 2, 3, 5, 8, 21, 55])),
+                                                 min_size=0, max_size=80)) for _ in range(k)][:600],
         "delays": draw(st.lists(st.integers(0, 6), min_size=4, max_size=24)),
         # leftovers of an earlier interrupted add in the shared store: unprotected files under an object's
         # final name holding a proper prefix of its bytes (indices into the sorted file ids of all writers)
+        # thread arm only: additionally yield at every Python call into these dvc_data modules
+        # (function-call granularity), in about 3 cases of 10
+        "trace": draw(st.sampled_from([None] * 12 + [["state.py", "hash_info.py", "utils.py", "meta.py"],
+                                                    ["state.py", "cache.py"], ["db/__init__.py", "db/local.py"],
+                                                    ["build.py", "hash.py", "tree.py"], ["transfer.py", "status.py"],
+                                                    []])),
         "leftovers": draw(st.lists(st.integers(0, 11), max_size=3)) if draw(st.integers(0, 2)) <= fanout else [],
     }
 
@@ -296,7 +305,7 @@ def run_case(case, ctx):  # noqa: C901, PLR0912
             shared = State(root_dir=d, tmp_dir=os.path.join(d, "tmp")) if case["shared_state"] else None
             try:
                 fns = [writer_fn(case, d, i, shared) for i in range(n)]
-                s, results = sched.run_scheduled(d, case["schedule"], fns)
+                s, results = sched.run_scheduled(d, case["schedule"], fns, trace=case.get("trace"))
             finally:
                 if shared is not None:
                     shared.close()
@@ -380,6 +389,8 @@ def run_case(case, ctx):  # noqa: C901, PLR0912
             cl.append("switches>=10")
         if switches >= 50:
             cl.append("switches>=50")
+        if case.get("trace") is not None and case["arm"] == "threads":
+            cl.append("yield-at-calls:" + (",".join(case["trace"]) or "all-dvc_data"))
         if n_left:
             cl.append("store-has-interrupted-add-leftover")
         if len({k[:2] for k in by_oid}) == 1 and len(by_oid) >= 2:
